@@ -17,6 +17,20 @@ import codec_layouts
 TRAILER = b"\xa5\x5a\xa5"
 MAXLEN = 65535
 
+# type codes of the standard (enum ofp_type / ofp_action_type of openflow.h 1.0), per library class — an independent
+# Python table for the oracle (the Lean side has its own transcription in Spec/OF10Layouts.lean)
+SPEC_MSG_CODE = {"ofp_hello": 0, "ofp_error": 1, "ofp_echo_request": 2, "ofp_echo_reply": 3, "ofp_vendor_generic": 4,
+                 "ofp_features_request": 5, "ofp_features_reply": 6, "ofp_get_config_request": 7, "ofp_get_config_reply": 8,
+                 "ofp_set_config": 9, "ofp_packet_in": 10, "ofp_flow_removed": 11, "ofp_port_status": 12, "ofp_packet_out": 13,
+                 "ofp_flow_mod": 14, "ofp_port_mod": 15, "ofp_stats_request": 16, "ofp_stats_reply": 17, "ofp_barrier_request": 18,
+                 "ofp_barrier_reply": 19, "ofp_queue_get_config_request": 20, "ofp_queue_get_config_reply": 21}
+SPEC_ACTION_CODES = {"ofp_action_output": {0}, "ofp_action_vlan_vid": {1}, "ofp_action_vlan_pcp": {2}, "ofp_action_strip_vlan": {3},
+                     "ofp_action_dl_addr": {4, 5}, "ofp_action_nw_addr": {6, 7}, "ofp_action_nw_tos": {8}, "ofp_action_tp_port": {9, 10},
+                     "ofp_action_enqueue": {11}, "ofp_action_vendor_generic": {0xffff}}
+SPEC_STATS_CODE = {"ofp_desc_stats_request": 0, "ofp_flow_stats_request": 1, "ofp_aggregate_stats_request": 2, "ofp_table_stats_request": 3,
+                   "ofp_port_stats_request": 4, "ofp_queue_stats_request": 5, "ofp_desc_stats": 0, "ofp_flow_stats": 1,
+                   "ofp_aggregate_stats": 2, "ofp_table_stats": 3, "ofp_port_stats": 4, "ofp_queue_stats": 5}
+
 # classes for which a pack() that raises is what the code is meant to do (abstract)
 ABSTRACT = {"ofp_header"}
 
@@ -242,7 +256,7 @@ class C01(Check):
     theorems = ["Pox.C01.pack_eq_unpack", "Pox.C01.pack_eq_spec", "Pox.C01.len_eq", "Pox.C01.untranslated_pinned",
                 "Pox.C01.irregular_pinned", "Pox.C01.registry_messages", "Pox.C01.registry_actions", "Pox.C01.registry_stats",
                 "Pox.C01.registry_queue_props", "Pox.C01.registry_total", "Pox.C01.roundtrip", "Pox.C01.actions_stream",
-                "Pox.C01.match_roundtrip", "Pox.C01.match_nonnormal_witness", "Pox.C01.nxm_roundtrip", "Pox.C01.nx_match_roundtrip",
+                "Pox.C01.packet_out_roundtrip", "Pox.C01.match_roundtrip", "Pox.C01.match_nonnormal_witness", "Pox.C01.nxm_roundtrip", "Pox.C01.nx_match_roundtrip",
                 "Pox.Layout.decode_encode", "Pox.Layout.encode_length", "Pox.Layout.lenfield_exact", "Pox.Layout.codecAt_good",
                 "Pox.Spec.OF10.sizes_ok"]
     anchors = [("pox/openflow/libopenflow_01.py", 102, 142), ("pox/openflow/libopenflow_01.py", 194, 203),
@@ -264,7 +278,15 @@ class C01(Check):
                   "openflow.h layout (decide), __len__ = size of the layout, all 22 message / 13 action / 7 stats / 2 queue-property codes registered to the class with the "
                   "standard's structure; generic theorem roundtrip: for all field values, list lengths, nesting depths and trailing bytes decode(encode r ++ tl) = (r, tl), "
                   "len = __len__, header length field = byte count, re-encode reproduces the bytes. Irregular/untranslated classes are pinned by name.")
-    level_note = ""
+    level_note = ("Proved for ALL inputs: generic Layout round trip + length-field exactness at any nesting depth (roundtrip, actions_stream), "
+                  "packet_out_roundtrip, match_roundtrip (both modes, for normal in-range matches; match_nonnormal_witness shows the hypothesis is needed), "
+                  "NXM TLV framing (nxm_roundtrip, nx_match_roundtrip). By `decide` over data regenerated from the source on every run: pack layout = unpack layout = "
+                  "openflow.h layout, __len__, registries, pinned irregular/untranslated lists. NOT proved, tested only by the correspondence run and the oracle: "
+                  "match_roundtrip_fm_full (flow_mod mode for non-normal matches: decoded == fix(m)), NXM field semantics (value/mask conversions, prerequisites), "
+                  "the Nicira classes outside the vocabulary (nx_flow_mod, nxt_packet_in, nx_action_bundle/learn, nx_output_reg, nx_reg_move/load, ofp_flow_mod_table_id), "
+                  "ofp_flow_mod's `data` magic (barrier + packet_out appended), the stats request/reply body dispatch (bodies are proved as classes of their own), Python __eq__. "
+                  "Readings recorded: matches are read over Normal ones; an all-ones NXM mask is the same entry as no mask; ofp_action_output is read after pack() has "
+                  "normalised max_len. Trusted: Lean kernel, Spec/OF10Layouts.lean transcription, the translator's canonicalisation (checked by bytes on every run), hand models.")
     rule = ("case = one codec object described as a JSON spec built from the library's own classes; corpus = per-field boundary sweep {0,1,max,sign bit} of every translated class, "
             "strings of every length, action lists 0..8183, payloads 0..1500, stats replies with 0..40 entries, every NXM type with/without mask; "
             "non-trivial = pack() produced bytes and the object has at least one non-default field")
@@ -604,6 +626,9 @@ class C01(Check):
         if obs.get("len") is not None and obs["len"] != n: return "len(obj) = %s but pack() gave %d bytes" % (obs["len"], n)
         if isinstance(obs.get("hdr"), str): return "header read raises"
         if obs.get("hdr") is not None and obs["hdr"] != n: return "length field on the wire = %s but pack() gave %d bytes" % (obs["hdr"], n)
+        if kind == "obj":
+            f = self.spec_check(case, obs)
+            if f: return f
         if obs.get("where") == "unpack": return "unpack raises %s" % obs.get("outcome", "?")[6:]
         if obs.get("consumed") != n: return "unpack consumed %s of %d bytes" % (obs.get("consumed"), n)
         if kind == "match":
@@ -626,12 +651,49 @@ class C01(Check):
         if obs.get("repack") != obs["pack"]: return "re-pack of the decoded object differs from the original bytes"
         return None
 
+    def spec_check(self, case, obs):
+        """the bytes have the layout (and type code) the OpenFlow 1.0 standard gives this class: type codes from the Python
+        tables above, layout by asking the driver to encode the same field values with Spec/OF10Layouts (the driver's
+        `spec` op does not involve the generated layout of the class under test)"""
+        cls = obs.get("cls"); b = bytes.fromhex(obs["pack"])
+        if cls in SPEC_MSG_CODE and (len(b) < 2 or b[1] != SPEC_MSG_CODE[cls] or b[0] != 1):
+            return "message type/version on the wire is %s/%s, the standard says %d/1" % (b[1] if len(b) > 1 else None, b[0] if b else None, SPEC_MSG_CODE[cls])
+        if cls in SPEC_ACTION_CODES and struct.unpack_from("!H", b, 0)[0] not in SPEC_ACTION_CODES[cls]:
+            return "action type on the wire is %d, the standard says %s" % (struct.unpack_from("!H", b, 0)[0], sorted(SPEC_ACTION_CODES[cls]))
+        if cls in SPEC_STATS_CODE:
+            t = getattr(self.B.cls(cls), "_type", None)
+            if t != SPEC_STATS_CODE[cls]: return "stats type of the class is %s, the standard says %d" % (t, SPEC_STATS_CODE[cls])
+        rec = obs.get("rec")
+        if rec is None or cls == "ofp_packet_out": return None
+        d = self.spec_driver()
+        if d is None: return None
+        r = d.ask({"op": "spec", "cls": cls, "rec": rec})
+        sp = r.get("spec")
+        if sp in (None, "no-spec") and "error" not in r: return None
+        if "error" in r or (isinstance(sp, str) and sp.startswith("spec layout")):
+            return "object does not have the fields of the standard's structure: %s" % (r.get("error") or sp)[:80]
+        if sp != obs["pack"]:
+            i = next((k for k in range(0, min(len(sp), len(obs["pack"])), 2) if sp[k:k + 2] != obs["pack"][k:k + 2]), min(len(sp), len(obs["pack"])))
+            return "bytes differ from the OpenFlow 1.0 layout of this structure at offset %d" % (i // 2)
+        return None
+
+    def spec_driver(self):
+        if getattr(self, "_spec_drv", None) is None:
+            try:
+                self._spec_drv = common.Driver("drv_c01")
+            except Exception:
+                self._spec_drv = False
+        return self._spec_drv or None
+
     def finding_key(self, case, obs, failure):
         cls = (obs.get("cls") if isinstance(obs, dict) else None) or case.get("spec", {}).get("cls", "?")
         f = failure
         for pat in ("pack raises", "unpack raises", "len(obj) raises", "== raises", "re-pack raises"):
             if f.startswith(pat):
                 return "%s:%s:%s" % (cls, pat.split()[0].replace("len(obj)", "len"), f[len(pat):].strip())
+        if f.startswith("bytes differ from the OpenFlow"): return "%s:pack:layout-differs-from-spec" % cls
+        if "the standard says" in f: return "%s:registry:type-code" % cls
+        if f.startswith("object does not have the fields"): return "%s:pack:fields-differ-from-spec" % cls
         if f.startswith("len(obj) ="): return "%s:len:mismatch" % cls
         if f.startswith("length field"): return "%s:pack:length-field" % cls
         if f.startswith("unpack consumed"): return "%s:unpack:consumed" % cls
@@ -687,7 +749,7 @@ class C01(Check):
             fixed, tail = self.lay[cname]["pack"]
             for f in fixed:
                 if f[0] != "uint" or f[1] not in spec.get("kw", {}): continue
-                if cname in ("ofp_stats_request", "ofp_stats_reply") and f[1] == "type": continue      # the type must name the body
+                if f[1] == "type" and cname != "ofp_error": continue      # the type code must be the one that names the class / body
                 if not isinstance(spec["kw"][f[1]], int) or isinstance(spec["kw"][f[1]], bool): continue
                 mx = (1 << (8 * f[2])) - 1
                 for v in (0, 1, mx, (mx + 1) >> 1):
@@ -780,7 +842,7 @@ class C01(Check):
         return cases
 
     def generate(self, rng, tier):
-        n = 600 if tier == "quick" else 20000
+        n = 600 if tier == "quick" else 100000
         for i in range(n):
             r = rng.random()
             if r < 0.42: yield self.obj(ofgen.message(rng, small=rng.random() < 0.6))
